@@ -18,13 +18,13 @@ from concurrent.futures import ThreadPoolExecutor
 import vlib
 
 LEVEL = "exploration"
-PARTS = ["hash", "stream", "box", "aead1", "aead2", "aead3", "curve", "group", "utils", "pwhash"]
+PARTS = ["extra", "hash", "stream", "box", "aead1", "aead2", "aead3", "curve", "group", "utils", "pwhash"]
 NOAVX2 = {"SODIUM_VERIF_CPUID7_EBX_CLEAR": "0x10020"}
 SSE2ONLY = {"SODIUM_VERIF_CPUID1_ECX_CLEAR": "0x12080201", "SODIUM_VERIF_CPUID7_EBX_CLEAR": "0x10020"}
 CFG_QUICK = [("native", {}), ("asan", {}), ("native", NOAVX2), ("native", SSE2ONLY), ("portable", {})]
 CFG_THOROUGH = CFG_QUICK + [("asan", NOAVX2), ("asan", SSE2ONLY), ("noasm", {}), ("no128", {})]
 SAN_ENV = {"ASAN_OPTIONS": "detect_leaks=0:allocator_may_return_null=1:abort_on_error=0", "UBSAN_OPTIONS": "print_stacktrace=1"}
-SUFFIXES = ["_detached_verifyonly", "_verifyonly", "_multi_keyed", "_multi_create", "_multi_verify", "_multi", "_nolen", "_short", "_keyed", "_c", "_ign", "_v1", "_v3", "_v5", "_v7",
+SUFFIXES = ["_multi_sp", "_detached_verifyonly", "_verifyonly", "_multi_keyed", "_multi_create", "_multi_verify", "_multi", "_nolen", "_short", "_keyed", "_c", "_ign", "_v1", "_v3", "_v5", "_v7",
             "_nacl", "_raw", "_nullctx", "_rxonly", "_small", "_alg_argon2i"]
 
 
@@ -139,7 +139,16 @@ def api_coverage(table_fns):
             if base.endswith(s):
                 base = base[: -len(s)] + ("_detached" if s == "_detached_verifyonly" else "")
                 break
-        if fn.endswith(("_multi", "_multi_keyed", "_multi_create", "_multi_verify")):
+        if base.endswith("_nacl"):
+            base = base[:-5]
+        for s in ("_open", "_afternm", "_open_afternm"):
+            if fn.endswith("_nacl" + s):
+                base = fn.replace("_nacl", "")
+        if fn == "crypto_pwhash_str_alg_argon2i":
+            covered.add("crypto_pwhash_str_alg")
+        if fn.endswith("_multi_sp"):
+            covered.add(base + "_init_salt_personal")
+        if fn.endswith(("_multi", "_multi_keyed", "_multi_create", "_multi_verify", "_multi_sp")):
             for s in ("_init", "_update", "_final", "_final_create", "_final_verify", "_extract_init", "_extract_update", "_extract_final"):
                 covered.add(base + s)
             if base.endswith("_extract"):
